@@ -208,12 +208,14 @@ def _sub(a, b):
 
 
 def has_any(node):
-    return any(k == 'any' for k in H.node_kinds(node)) and _mentions_typing_any(node)
+    return _mentions_typing_any(node)
 
 
 def _mentions_typing_any(node):
     if node[0] == 'any':
         return node[1] == 'Any'
+    if node[0] == 'type' and node[2] == 'TAny':      # typing.Type[typing.Any]
+        return True
     found = []
     H._map_children(node, lambda ch: found.append(_mentions_typing_any(ch)) or ch)
     return any(found)
